@@ -27,7 +27,9 @@ CONSTANTS Senders,      \* set of sender ids (model values or naturals)
           Variant, Mode,
           MaxNested,    \* nested sends (from callbacks) per behaviour
           MaxFails,     \* raising callbacks per behaviour
-          MaxYields     \* suspensions per callback (asyncio)
+          MaxYields,    \* suspensions per callback (asyncio)
+          Gated         \* senders whose events are only enabled once the machine has left its first state (the machine
+                        \* tolerates events without transition: such an event, processed too early, is ignored)
 
 VARIABLES pc,        \* [Senders -> STRING]
           sent,      \* [Senders -> Nat]  events already put by the sender itself
@@ -42,10 +44,12 @@ VARIABLES pc,        \* [Senders -> STRING]
           exc,       \* [Senders -> BOOLEAN] an exception is propagating through the sender's loop
           yields,    \* [Senders -> Nat]
           nnested, nfails,
-          active     \* asyncio: the task that owns the processor (NoSender: none)
+          active,    \* asyncio: the task that owns the processor (NoSender: none)
+          moves,     \* state changes of the machine so far
+          ignored    \* events that found no transition when their turn came (tolerated)
 
 dvars == <<pc, sent, queue, locked, cur, running, started, done, failed, dropped, exc, yields,
-           nnested, nfails, active>>
+           nnested, nfails, active, moves, ignored>>
 
 NoEv == [s |-> 0, n |-> 0, nested |-> FALSE]
 Ev(s, n) == [s |-> s, n |-> n, nested |-> FALSE]
@@ -61,6 +65,10 @@ DInit == /\ pc = [s \in Senders |-> "idle"]
          /\ yields = [s \in Senders |-> 0]
          /\ nnested = 0 /\ nfails = 0
          /\ active = 0
+         /\ moves = 0 /\ ignored = {}
+
+\* whether an event fires depends on the state of the machine WHEN ITS TURN COMES, never on the state at send time
+EnabledEv(ev) == ev.nested \/ ev.s \notin Gated \/ moves >= 1
 
 Goto(s, l) == pc' = [pc EXCEPT ![s] = l]
 \* who may take a step
@@ -71,44 +79,50 @@ Release == IF Mode = "asyncio" THEN active' = 0 ELSE active' = active
 \* ---- the sender's own call -------------------------------------------------------------
 Start(s) == /\ pc[s] = "idle" /\ sent[s] < PerSender /\ MayStep(s)
             /\ Goto(s, "put") /\ Take(s)
-            /\ UNCHANGED <<sent, queue, locked, cur, running, started, done, failed, dropped, exc, yields, nnested, nfails>>
+            /\ UNCHANGED <<sent, queue, locked, cur, running, started, done, failed, dropped, exc, yields, nnested, nfails, moves, ignored>>
 
 Put(s) == /\ pc[s] = "put" /\ MayStep(s)
           /\ queue' = Append(queue, Ev(s, sent[s] + 1))
           /\ sent' = [sent EXCEPT ![s] = @ + 1]
           /\ Goto(s, "acq") /\ Take(s)
-          /\ UNCHANGED <<locked, cur, running, started, done, failed, dropped, exc, yields, nnested, nfails>>
+          /\ UNCHANGED <<locked, cur, running, started, done, failed, dropped, exc, yields, nnested, nfails, moves, ignored>>
 
 Acquire(s) == /\ pc[s] = "acq" /\ MayStep(s)
               /\ IF locked THEN Goto(s, "ret") /\ locked' = locked
                  ELSE Goto(s, "chk") /\ locked' = TRUE
               /\ Take(s)
-              /\ UNCHANGED <<sent, queue, cur, running, started, done, failed, dropped, exc, yields, nnested, nfails>>
+              /\ UNCHANGED <<sent, queue, cur, running, started, done, failed, dropped, exc, yields, nnested, nfails, moves, ignored>>
 
 Check(s) == /\ pc[s] = "chk" /\ MayStep(s)
             /\ Goto(s, IF queue # <<>> THEN "pop" ELSE "rel") /\ Take(s)
-            /\ UNCHANGED <<sent, queue, locked, cur, running, started, done, failed, dropped, exc, yields, nnested, nfails>>
+            /\ UNCHANGED <<sent, queue, locked, cur, running, started, done, failed, dropped, exc, yields, nnested, nfails, moves, ignored>>
 
 Pop(s) == /\ pc[s] = "pop" /\ MayStep(s) /\ queue # <<>>
           /\ cur' = [cur EXCEPT ![s] = Head(queue)]
           /\ queue' = Tail(queue)
           /\ yields' = [yields EXCEPT ![s] = 0]
           /\ Goto(s, "begin") /\ Take(s)
-          /\ UNCHANGED <<sent, locked, running, started, done, failed, dropped, exc, nnested, nfails>>
+          /\ UNCHANGED <<sent, locked, running, started, done, failed, dropped, exc, nnested, nfails, moves, ignored>>
 
 \* ---- processing one event: user callbacks begin .. end ------------------------------------
-Begin(s) == /\ pc[s] = "begin" /\ MayStep(s)
+Begin(s) == /\ pc[s] = "begin" /\ MayStep(s) /\ EnabledEv(cur[s])
             /\ running' = running \cup {cur[s]}
             /\ started' = Append(started, cur[s])
             /\ Goto(s, "run") /\ Take(s)
-            /\ UNCHANGED <<sent, queue, locked, cur, done, failed, dropped, exc, yields, nnested, nfails>>
+            /\ UNCHANGED <<sent, queue, locked, cur, done, failed, dropped, exc, yields, nnested, nfails, moves, ignored>>
+
+\* no transition for this event in the state the machine is in now: tolerated, nothing runs
+Skip(s) == /\ pc[s] = "begin" /\ MayStep(s) /\ ~EnabledEv(cur[s])
+           /\ ignored' = ignored \cup {cur[s]}
+           /\ Goto(s, "chk") /\ Take(s)
+           /\ UNCHANGED <<sent, queue, locked, cur, running, started, done, failed, dropped, exc, yields, nnested, nfails, moves>>
 
 \* a callback sends an event to its own machine: put, and the try-acquire fails (we hold the lock)
 Nested(s) == /\ pc[s] = "run" /\ MayStep(s) /\ nnested < MaxNested
              /\ queue' = Append(queue, NEv(nnested + 1))
              /\ nnested' = nnested + 1
              /\ Take(s)
-             /\ UNCHANGED <<pc, sent, locked, cur, running, started, done, failed, dropped, exc, yields, nfails>>
+             /\ UNCHANGED <<pc, sent, locked, cur, running, started, done, failed, dropped, exc, yields, nfails, moves, ignored>>
 
 \* asyncio: the holder's task is suspended - inside a coroutine callback, or at the engine's own
 \* `await gather(...)` just before the callbacks of a group start ("begin") and right after they end
@@ -118,13 +132,14 @@ Nested(s) == /\ pc[s] = "run" /\ MayStep(s) /\ nnested < MaxNested
 Yield(s) == /\ pc[s] \in {"begin", "run", "chk", "clr"} /\ Mode = "asyncio" /\ active = s /\ yields[s] < MaxYields
             /\ yields' = [yields EXCEPT ![s] = @ + 1]
             /\ active' = 0
-            /\ UNCHANGED <<pc, sent, queue, locked, cur, running, started, done, failed, dropped, exc, nnested, nfails>>
+            /\ UNCHANGED <<pc, sent, queue, locked, cur, running, started, done, failed, dropped, exc, nnested, nfails, moves, ignored>>
 
 End(s) == /\ pc[s] = "run" /\ MayStep(s)
           /\ running' = running \ {cur[s]}
           /\ done' = done \cup {cur[s]}
+          /\ moves' = moves + 1
           /\ Goto(s, "chk") /\ Take(s)
-          /\ UNCHANGED <<sent, queue, locked, cur, started, failed, dropped, exc, yields, nnested, nfails>>
+          /\ UNCHANGED <<sent, queue, locked, cur, started, failed, dropped, exc, yields, nnested, nfails, ignored>>
 
 Fail(s) == /\ pc[s] = "run" /\ MayStep(s) /\ nfails < MaxFails
            /\ running' = running \ {cur[s]}
@@ -132,32 +147,32 @@ Fail(s) == /\ pc[s] = "run" /\ MayStep(s) /\ nfails < MaxFails
            /\ nfails' = nfails + 1
            /\ exc' = [exc EXCEPT ![s] = TRUE]
            /\ Goto(s, "clr") /\ Take(s)
-           /\ UNCHANGED <<sent, queue, locked, cur, started, done, dropped, yields, nnested>>
+           /\ UNCHANGED <<sent, queue, locked, cur, started, done, dropped, yields, nnested, moves, ignored>>
 
 Clear(s) == /\ pc[s] = "clr" /\ MayStep(s)
             /\ dropped' = dropped \cup {queue[i] : i \in DOMAIN queue}
             /\ queue' = <<>>
             /\ Goto(s, "rel") /\ Take(s)
-            /\ UNCHANGED <<sent, locked, cur, running, started, done, failed, exc, yields, nnested, nfails>>
+            /\ UNCHANGED <<sent, locked, cur, running, started, done, failed, exc, yields, nnested, nfails, moves, ignored>>
 
 Rel(s) == /\ pc[s] = "rel" /\ MayStep(s)
           /\ locked' = FALSE
           /\ Goto(s, IF Variant = "both" \/ (Variant = "normal" /\ ~exc[s]) THEN "rck" ELSE "ret")
           /\ Take(s)
-          /\ UNCHANGED <<sent, queue, cur, running, started, done, failed, dropped, exc, yields, nnested, nfails>>
+          /\ UNCHANGED <<sent, queue, cur, running, started, done, failed, dropped, exc, yields, nnested, nfails, moves, ignored>>
 
 \* the second look: somebody may have enqueued after our last look and lost the acquire
 Recheck(s) == /\ pc[s] = "rck" /\ MayStep(s)
               /\ Goto(s, IF queue # <<>> THEN "acq" ELSE "ret") /\ Take(s)
-              /\ UNCHANGED <<sent, queue, locked, cur, running, started, done, failed, dropped, exc, yields, nnested, nfails>>
+              /\ UNCHANGED <<sent, queue, locked, cur, running, started, done, failed, dropped, exc, yields, nnested, nfails, moves, ignored>>
 
 Ret(s) == /\ pc[s] = "ret" /\ MayStep(s)
           /\ Goto(s, "idle")
           /\ exc' = [exc EXCEPT ![s] = FALSE]
           /\ Release
-          /\ UNCHANGED <<sent, queue, locked, cur, running, started, done, failed, dropped, yields, nnested, nfails>>
+          /\ UNCHANGED <<sent, queue, locked, cur, running, started, done, failed, dropped, yields, nnested, nfails, moves, ignored>>
 
-Step(s) == \/ Start(s) \/ Put(s) \/ Acquire(s) \/ Check(s) \/ Pop(s) \/ Begin(s) \/ Nested(s)
+Step(s) == \/ Start(s) \/ Put(s) \/ Acquire(s) \/ Check(s) \/ Pop(s) \/ Begin(s) \/ Skip(s) \/ Nested(s)
            \/ Yield(s) \/ End(s) \/ Fail(s) \/ Clear(s) \/ Rel(s) \/ Recheck(s) \/ Ret(s)
 DNext == \E s \in Senders : Step(s)
 DSpec == DInit /\ [][DNext]_dvars
@@ -183,7 +198,7 @@ NothingStranded ==
     AllReturned => /\ queue = <<>>
                    /\ ~locked
                    /\ \A s \in Senders : \A n \in 1..PerSender :
-                        Ev(s, n) \in done \cup failed \cup dropped
+                        Ev(s, n) \in done \cup failed \cup dropped \cup ignored
 \* C04 in the concurrent setting: an event removed by clear() never runs later
 DroppedNeverRun == \A i \in DOMAIN started : started[i] \notin dropped
 \* Dispatch refines its counter abstraction DispatchCore (queue |-> its length, "begin" |-> "run"), whose invariant is
